@@ -1,7 +1,7 @@
 (** C08 — Keys identify projected tuples; projections plus residue lose nothing.
     Statements only; proofs are in Proofs/Key.v, Proofs/Projection.v,
     Proofs/Exclusion.v, Proofs/KeyGet.v, Proofs/Lossless.v, Proofs/LosslessNames.v,
-    Proofs/LosslessExec.v.
+    Proofs/LosslessExec.v, Proofs/LosslessUnits.v, Proofs/LosslessUnitsExec.v.
     The model (Model/Projection.v, Model/Key.v) is driven by
     arbitrary streams [ops] of API calls on one ProjectionParser: Parse /
     ParseWithUnit (already-parsed fields, failing calls included), Residue,
@@ -9,7 +9,7 @@
     keyNode in the projection's list of interned rows (Go: pointer identity). *)
 From Perf Require Import Base.Bytes Model.Name Model.Extract Model.Key Model.Projection
   Proofs.Key Proofs.Projection Proofs.Exclusion Proofs.KeyGet Proofs.Lossless Proofs.LosslessNames
-  Proofs.LosslessExec.
+  Proofs.LosslessExec Proofs.LosslessUnits Proofs.LosslessUnitsExec.
 
 (** intern_inv (1): after any stream of calls, in every projection the interned
     rows are pairwise distinct, carry no trailing empty string, and are no longer
@@ -330,7 +330,9 @@ Print Assumptions C08_deleted_parts_are_read.
     expressions are the parser's ([calls_of ex]: one Parse/ParseWithUnit call per
     expression), and its boolean tests are the four clauses. The extra conjunct
     concerns expressions parsed by ParseWithUnit and projected by ProjectValues:
-    the checker then also compares the units (that part is tested, not proved). *)
+    the checker then also compares the units — the theorem for that is
+    C08_projections_plus_residue_lossless_units below, and
+    C08_lossless_check_decides_units says this check decides its right-hand side. *)
 Theorem C08_lossless_check_decides : forall ex a b,
   Forall call_ok (calls_of ex) ->
   let pa := parser_after (calls_of ex) in
@@ -483,4 +485,233 @@ Proof.
     destruct (beq_spec (bs "goos") k) as [<-|_]; [|reflexivity]. exfalso. apply Hk. now left.
   - intros k [].
   - reflexivity.
+Qed.
+
+(** ** the .unit dimension: ParseWithUnit projections projected by ProjectValues
+
+    Setting as for C08_projections_plus_residue_lossless, except that every
+    projection returned by ParseWithUnit is projected by ProjectValues — one Key
+    per measurement of the result, carrying that measurement's unit in the .unit
+    field — and the others and the residue by Project ([proj_op calls pi r];
+    [with_unit calls pi]: call number pi was ParseWithUnit). [ka pi], [kb pi] are
+    the LISTS of Keys returned for [a] and [b] by projection [pi] (one Key for
+    Project), at arbitrary positions of any stream [rest] after parsing.
+    Hypothesis on the results: when some projection carries .unit, [a] or [b] has
+    at least one measurement. The Reader never delivers a result without one
+    (benchfmt/reader.go: "missing measurements"); a result without measurements
+    gets no Key at all from ProjectValues, so nothing can be read off the
+    ParseWithUnit projections for it (C08_lossless_units_needs_values).
+
+    Statement. The Key lists agree in every projection and in the residue IF AND
+    ONLY IF clauses (i)-(iv) hold ([same_info]) AND — when some projection
+    carries .unit — the unit lists of the two results ([r_units]: the units of
+    their Values, in order) are equal. *)
+Theorem C08_projections_plus_residue_lossless_units :
+  forall calls rest a b (ia ib : nat -> nat) (ka kb : nat -> list nat),
+  Forall call_ok calls -> Forall no_parse rest -> Forall op_wf rest ->
+  let w0 := fst (run_ops new_world (parse_ops calls ++ [OpResidue])) in
+  let xs := snd (run_ops w0 rest) in
+  (forall pi, pi <= length calls ->
+     nth_error rest (ia pi) = Some (proj_op calls pi a) /\ nth_error xs (ia pi) = Some (OutKeys (ka pi)) /\
+     nth_error rest (ib pi) = Some (proj_op calls pi b) /\ nth_error xs (ib pi) = Some (OutKeys (kb pi))) ->
+  (existsb fst calls = true -> r_units a <> [] \/ r_units b <> []) ->
+  ((forall pi, pi <= length calls -> ka pi = kb pi) <-> same_info_units calls a b).
+Proof. exact projections_plus_residue_lossless_units. Qed.
+Print Assumptions C08_projections_plus_residue_lossless_units.
+
+(** the right-hand side and the operation used per projection, spelled out *)
+Theorem C08_same_info_units_clauses : forall calls a b,
+  same_info_units calls a b <->
+  same_info (pp_cfg (parser_after calls)) (pp_full (parser_after calls)) a b /\
+  (existsb fst calls = true -> r_units a = r_units b).
+Proof. intros calls a b. reflexivity. Qed.
+Print Assumptions C08_same_info_units_clauses.
+
+Theorem C08_proj_op_spec : forall calls pi r,
+  proj_op calls pi r =
+  match nth_error calls pi with
+  | Some (true, _) => OpProjectValues pi r
+  | _ => OpProject pi r
+  end.
+Proof. intros calls pi r. unfold proj_op, with_unit. destruct (nth_error calls pi) as [[[|] fs]|]; reflexivity. Qed.
+Print Assumptions C08_proj_op_spec.
+
+(** the same with the Keys of each result as one list of Key lists (entry [pi]
+    from projection [pi], the last from the residue): the shape in which the
+    correspondence evaluator compares the Keys the real code returned *)
+Theorem C08_lossless_units_lists :
+  forall calls rest a b (ia ib : nat -> nat) (Ka Kb : list (list nat)),
+  Forall call_ok calls -> Forall no_parse rest -> Forall op_wf rest ->
+  let w0 := fst (run_ops new_world (parse_ops calls ++ [OpResidue])) in
+  let xs := snd (run_ops w0 rest) in
+  length Ka = S (length calls) -> length Kb = S (length calls) ->
+  (forall pi, pi <= length calls ->
+     nth_error rest (ia pi) = Some (proj_op calls pi a) /\
+     nth_error xs (ia pi) = Some (OutKeys (nth pi Ka [])) /\
+     nth_error rest (ib pi) = Some (proj_op calls pi b) /\
+     nth_error xs (ib pi) = Some (OutKeys (nth pi Kb []))) ->
+  (existsb fst calls = true -> r_units a <> [] \/ r_units b <> []) ->
+  (Ka = Kb <-> same_info_units calls a b).
+Proof. exact lossless_units_lists. Qed.
+Print Assumptions C08_lossless_units_lists.
+
+(** what the Keys of ProjectValues hold (the counterpart of C08_group_contents):
+    the Keys handed out for [r] anywhere in the stream after parsing by a
+    projection that ParseWithUnit returned, read in the FINAL state. One Key per
+    measurement, in order; [key_get] of its .unit field — the projection's unit
+    field [p_unit], a field named ".unit" — is that measurement's unit; every
+    other field holds what its extractor yields on [r] ([want], as for Project) *)
+Theorem C08_unit_key_contents : forall calls rest i pi r ks,
+  Forall call_ok calls -> Forall no_parse rest -> Forall op_wf rest ->
+  let pa := parser_after calls in
+  let w0 := fst (run_ops new_world (parse_ops calls ++ [OpResidue])) in
+  with_unit calls pi = true ->
+  nth_error rest i = Some (OpProjectValues pi r) ->
+  nth_error (snd (run_ops w0 rest)) i = Some (OutKeys ks) ->
+  exists pF u, nth_error (w_projs (fst (run_ops w0 rest))) pi = Some pF /\
+    p_unit pF = Some u /\ field_name pF u = key_unit /\
+    Forall2 (fun k un => k < length (p_keys pF) /\ key_get pF k u = un /\
+               forall idx f, nth_error (p_fields pF) idx = Some f -> idx <> u ->
+                 key_get pF k idx = want (pp_full pa) r f)
+            ks (r_units r).
+Proof. exact unit_key_contents. Qed.
+Print Assumptions C08_unit_key_contents.
+
+(** ... and after ANY stream of calls (Parse calls interleaved, failing ones
+    included; the counterpart of C08_key_get_extracted): ProjectValues through a
+    projection with a unit field [u] returns one Key per measurement, in order;
+    the i-th Key holds the i-th unit in field [u] and, in every other field, the
+    value C08_key_get_extracted describes ([want]: by the field's tag) *)
+Theorem C08_unit_get_reachable : forall ops w xs pi p r u,
+  Forall op_wf ops -> run_ops new_world ops = (w, xs) -> nth_error (w_projs w) pi = Some p ->
+  NoDup (map c_key (r_cfg r)) -> p_unit p = Some u ->
+  let '(pp', p', ks) := project_values (w_pp w) p r in
+  p_unit p' = Some u /\
+  Forall2 (fun k un => k < length (p_keys p') /\ key_get p' k u = un /\
+             forall idx f, nth_error (p_fields p') idx = Some f -> idx <> u ->
+               key_get p' k idx = want (ext_of (w_pp w)) r f)
+          ks (r_units r).
+Proof. exact unit_get_reachable. Qed.
+Print Assumptions C08_unit_get_reachable.
+
+(** The executable check (Corr/RunC08.v), unit part included: [RunC08.same_info]
+    decides [same_info_units], the right-hand side of the theorem above;
+    [lossless_ok] requires, for every ordered pair of the list it is given, that
+    the observed Key lists are equal iff [same_info_units]; and [judged] hands it
+    only results with a measurement when some expression carries .unit, i.e.
+    pairs that satisfy the theorem's hypothesis. *)
+Theorem C08_lossless_check_decides_units : forall ex a b,
+  Forall call_ok (calls_of ex) ->
+  (Perf.Corr.RunC08.same_info ex a b = true <-> same_info_units (calls_of ex) a b).
+Proof. exact same_info_exec_units. Qed.
+Print Assumptions C08_lossless_check_decides_units.
+
+Theorem C08_lossless_ok_decides : forall ex rs,
+  Forall call_ok (calls_of ex) ->
+  (Perf.Corr.RunC08.lossless_ok ex rs = true <->
+   ForallOrdPairs (fun x y => snd x = snd y <-> same_info_units (calls_of ex) (fst x) (fst y)) rs).
+Proof. exact lossless_ok_decides. Qed.
+Print Assumptions C08_lossless_ok_decides.
+
+Theorem C08_judged_has_values : forall ex rs x,
+  In x (Perf.Corr.RunC08.judged ex rs) ->
+  In x rs /\ (existsb fst (calls_of ex) = true -> r_units (fst x) <> []).
+Proof. exact judged_has_values. Qed.
+Print Assumptions C08_judged_has_values.
+
+(** non-vacuity: "goos,/a" by Parse, ".config" by ParseWithUnit, residue. lu_a and
+    lu_b (different part order in the name, different order of the configuration,
+    the same two units) get equal Key lists everywhere — two Keys from the
+    ParseWithUnit projection — although a result with a new configuration key
+    comes in between; lu_c is lu_a with another second unit: clauses (i)-(iv)
+    hold, the Key lists of the ParseWithUnit projection differ in the second Key.
+    Both instances satisfy every hypothesis of the theorem. *)
+Definition lu_a : result :=
+  mkR (bs "Fib/a=1/b=2-8") [mkCfg (bs "goos") (bs "linux") true; mkCfg (bs "pkg") (bs "p") true]
+      [bs "sec/op"; bs "B/op"].
+Definition lu_b : result :=
+  mkR (bs "Fib/b=2/a=1-8") [mkCfg (bs "pkg") (bs "p") true; mkCfg (bs "goos") (bs "linux") true]
+      [bs "sec/op"; bs "B/op"].
+Definition lu_c : result :=
+  mkR (bs "Fib/a=1/b=2-8") [mkCfg (bs "goos") (bs "linux") true; mkCfg (bs "pkg") (bs "p") true]
+      [bs "sec/op"; bs "allocs/op"].
+Definition lu_rest : list op :=
+  [OpProject 0 lu_a; OpProjectValues 1 lu_a; OpProject 2 lu_a; OpProjectValues 1 lx_c; OpResidue;
+   OpProject 0 lu_b; OpProjectValues 1 lu_b; OpProject 2 lu_b;
+   OpProject 0 lu_c; OpProjectValues 1 lu_c; OpProject 2 lu_c].
+
+Example C08_lossless_units_example :
+  let C := pp_cfg (parser_after lx_calls) in
+  let E := pp_full (parser_after lx_calls) in
+  let xs := snd (run_ops lx_w0 lu_rest) in
+  Forall call_ok lx_calls /\ Forall no_parse lu_rest /\ Forall op_wf lu_rest /\
+  existsb fst lx_calls = true /\ r_units lu_a <> [] /\
+  (forall pi, pi <= length lx_calls ->
+     nth_error lu_rest pi = Some (proj_op lx_calls pi lu_a) /\
+     nth_error xs pi = Some (OutKeys (nth pi [[0]; [0; 1]; [0]] [])) /\
+     nth_error lu_rest (5 + pi) = Some (proj_op lx_calls pi lu_b) /\
+     nth_error xs (5 + pi) = Some (OutKeys (nth pi [[0]; [0; 1]; [0]] []))) /\
+  same_info_units lx_calls lu_a lu_b /\
+  (forall pi, pi <= length lx_calls ->
+     nth_error lu_rest pi = Some (proj_op lx_calls pi lu_a) /\
+     nth_error xs pi = Some (OutKeys (nth pi [[0]; [0; 1]; [0]] [])) /\
+     nth_error lu_rest (8 + pi) = Some (proj_op lx_calls pi lu_c) /\
+     nth_error xs (8 + pi) = Some (OutKeys (nth pi [[0]; [0; 3]; [0]] []))) /\
+  same_info C E lu_a lu_c /\ ~ same_info_units lx_calls lu_a lu_c.
+Proof.
+  cbv zeta.
+  assert (H1 : Forall call_ok lx_calls) by (repeat constructor).
+  assert (H2 : Forall no_parse lu_rest) by (repeat constructor).
+  assert (H3 : Forall op_wf lu_rest) by solve_wf.
+  assert (Hv : existsb fst lx_calls = true -> r_units lu_a <> [] \/ r_units lu_b <> []).
+  { intros _. left. discriminate. }
+  assert (Hv' : existsb fst lx_calls = true -> r_units lu_a <> [] \/ r_units lu_c <> []).
+  { intros _. left. discriminate. }
+  assert (H4 : forall pi, pi <= length lx_calls ->
+     nth_error lu_rest pi = Some (proj_op lx_calls pi lu_a) /\
+     nth_error (snd (run_ops lx_w0 lu_rest)) pi = Some (OutKeys (nth pi [[0]; [0; 1]; [0]] [])) /\
+     nth_error lu_rest (5 + pi) = Some (proj_op lx_calls pi lu_b) /\
+     nth_error (snd (run_ops lx_w0 lu_rest)) (5 + pi) = Some (OutKeys (nth pi [[0]; [0; 1]; [0]] []))).
+  { intros [|[|[|pi]]] Hpi; [| | |cbn in Hpi; lia]; repeat split; vm_compute; reflexivity. }
+  assert (H5 : forall pi, pi <= length lx_calls ->
+     nth_error lu_rest pi = Some (proj_op lx_calls pi lu_a) /\
+     nth_error (snd (run_ops lx_w0 lu_rest)) pi = Some (OutKeys (nth pi [[0]; [0; 1]; [0]] [])) /\
+     nth_error lu_rest (8 + pi) = Some (proj_op lx_calls pi lu_c) /\
+     nth_error (snd (run_ops lx_w0 lu_rest)) (8 + pi) = Some (OutKeys (nth pi [[0]; [0; 3]; [0]] []))).
+  { intros [|[|[|pi]]] Hpi; [| | |cbn in Hpi; lia]; repeat split; vm_compute; reflexivity. }
+  split; [exact H1|]. split; [exact H2|]. split; [exact H3|].
+  split; [reflexivity|]. split; [discriminate|]. split; [exact H4|]. split.
+  - apply (projections_plus_residue_lossless_units lx_calls lu_rest lu_a lu_b (fun pi => pi) (fun pi => 5 + pi)
+             (fun pi => nth pi [[0]; [0; 1]; [0]] []) (fun pi => nth pi [[0]; [0; 1]; [0]] []) H1 H2 H3 H4 Hv).
+    reflexivity.
+  - split; [exact H5|]. split.
+    + split; [|split; [|split]]; intros; reflexivity.
+    + intros Hs.
+      pose proof (proj2 (projections_plus_residue_lossless_units lx_calls lu_rest lu_a lu_c (fun pi => pi)
+               (fun pi => 8 + pi) (fun pi => nth pi [[0]; [0; 1]; [0]] []) (fun pi => nth pi [[0]; [0; 3]; [0]] [])
+               H1 H2 H3 H5 Hv') Hs) as Hk.
+      specialize (Hk 1 (le_S _ _ (le_n 1))). discriminate Hk.
+Qed.
+
+(** the hypothesis on measurements is needed: two results WITHOUT measurements
+    that differ in the individually projected key goos, projected through
+    "goos" parsed by ParseWithUnit (no Key at all) and through the residue (goos
+    left out): the Key lists agree everywhere and the unit lists are equal, yet
+    clause (i) fails *)
+Definition nv_a : result := mkR (bs "F") [mkCfg (bs "goos") (bs "linux") true] [].
+Definition nv_b : result := mkR (bs "F") [mkCfg (bs "goos") (bs "darwin") true] [].
+Example C08_lossless_units_needs_values :
+  let calls := [(true, [ex_goos])] in
+  let w0 := fst (run_ops new_world (parse_ops calls ++ [OpResidue])) in
+  [proj_op calls 0 nv_a; proj_op calls 1 nv_a; proj_op calls 0 nv_b; proj_op calls 1 nv_b]
+    = [OpProjectValues 0 nv_a; OpProject 1 nv_a; OpProjectValues 0 nv_b; OpProject 1 nv_b] /\
+  snd (run_ops w0 [OpProjectValues 0 nv_a; OpProject 1 nv_a; OpProjectValues 0 nv_b; OpProject 1 nv_b])
+    = [OutKeys []; OutKeys [0]; OutKeys []; OutKeys [0]] /\
+  Forall call_ok calls /\ r_units nv_a = r_units nv_b /\
+  ~ same_info_units calls nv_a nv_b.
+Proof.
+  cbv zeta. split; [reflexivity|]. split; [vm_compute; reflexivity|]. split; [repeat constructor|].
+  split; [reflexivity|]. intros [[H _] _].
+  assert (Hin : In (bs "goos") (pp_cfg (parser_after [(true, [ex_goos])]))) by (vm_compute; auto).
+  specialize (H _ Hin). vm_compute in H. discriminate H.
 Qed.
